@@ -199,3 +199,28 @@ fn c03_instrumented_polls_and_drops_inside_the_span() {
     });
     assert!(total(1) == 0, "C03.foreign_default_never_touched");
 }
+
+// Instrumented::into_inner hands back the wrapped value and drops the span handle it owned: exactly one close
+// notification on the span's own collector, no enter/exit, the inner value neither dropped nor polled
+#[kani::proof]
+#[kani::unwind(12)]
+#[kani::stub(core::fmt::Formatter::pad, pad_stub)]
+fn c03_instrumented_into_inner_drops_its_span_handle_exactly_once() {
+    use crate::instrument::Instrument;
+    let id = any_id(); let d = own(id); let f = foreign();
+    let s = mk(&d);
+    let keep_clone: bool = nd();
+    dispatch::with_default(&f, || {
+        let extra = if keep_clone { Some(s.clone()) } else { None };
+        let inst = Fut { ready_after: 1 }.instrument(s);
+        let inner = inst.into_inner();
+        assert!(n(0, CLOSE) == 1, "C03.Instrumented.into_inner.the_handle_it_owned_is_closed_exactly_once");
+        assert!(n(0, ENTER) == 0 && n(0, EXIT) == 0, "C03.Instrumented.into_inner.no_enter_no_exit");
+        assert!(INNER_DROP_STAMP.load(AO::SeqCst) == 0 && inner.ready_after == 1, "C03.Instrumented.into_inner.inner_value_returned_untouched");
+        assert!(n(0, CLONE) == keep_clone as usize, "C03.Instrumented.into_inner.no_extra_clone");
+        drop(extra);
+        assert!(n(0, CLOSE) == 1 + keep_clone as usize, "C03.Instrumented.into_inner.other_handles_close_on_their_own_drop");
+        core::mem::forget(inner);
+    });
+    assert!(total(1) == 0, "C03.foreign_default_never_touched");
+}
